@@ -4,6 +4,8 @@ package main
 
 import (
 	"fmt"
+	"math"
+	"math/big"
 	"sort"
 	"time"
 
@@ -308,8 +310,50 @@ func runSets(r *driver.Run) {
 					step = -1 - t.Draw(4)
 				}
 			}
+			if t.Chance(1, 5) {
+				// ends at the limits of int and steps of any magnitude: the set is small, the
+				// arithmetic on the way to it is what overflows
+				edge := func() int {
+					switch t.Draw(4) {
+					case 0:
+						return math.MaxInt - t.Draw(9)
+					case 1:
+						return math.MinInt + t.Draw(9)
+					case 2:
+						return t.Draw(9) - 4
+					default:
+						return []int{math.MaxInt / 2, math.MinInt / 2, math.MaxInt/2 + 1, math.MinInt/2 - 1}[t.Draw(4)] + t.Draw(5) - 2
+					}
+				}
+				start, end = edge(), edge()
+				switch t.Draw(4) {
+				case 0:
+					step = 1 + t.Draw(4)
+				case 1:
+					step = math.MaxInt - t.Draw(3)
+				case 2:
+					step = math.MaxInt/2 + t.Draw(5) - 2
+				default:
+					step = math.MaxInt/4 + t.Draw(9)
+				}
+				if end < start {
+					step = -step
+					if t.Chance(1, 8) {
+						step = math.MinInt
+					}
+				}
+				r.Probe("range-at-the-limits-of-int")
+			}
 			what = fmt.Sprintf("Range(%d,%d,%d)", start, end, step)
 			infinite := (end < start && step > 0) || (end > start && step < 0) || (end != start && step == 0)
+			if !infinite && end != start {
+				// a finite set too large to be a slice is not asked for
+				dist := new(big.Int).Abs(new(big.Int).Sub(big.NewInt(int64(end)), big.NewInt(int64(start))))
+				if dist.Div(dist, new(big.Int).Abs(big.NewInt(int64(step)))).Cmp(big.NewInt(2000)) > 0 {
+					r.Probe("range-too-large-skipped")
+					break
+				}
+			}
 			var got sortints.SortedInts
 			pd := r.Call("Range", budget, func() { got = sortints.Range(start, end, step) })
 			if infinite {
@@ -323,8 +367,14 @@ func runSets(r *driver.Run) {
 				}
 				var want []int
 				if end != start {
-					for x := start; (step > 0 && x < end) || (step < 0 && x > end); x += step {
-						want = append(want, x)
+					// exact arithmetic: the elements start + i*step in [start, end) resp. (end, start]
+					bs, be, bst := big.NewInt(int64(start)), big.NewInt(int64(end)), big.NewInt(int64(step))
+					dist := new(big.Int).Abs(new(big.Int).Sub(be, bs))
+					cnt := new(big.Int).Add(dist, new(big.Int).Abs(bst))
+					cnt.Sub(cnt, big.NewInt(1)).Div(cnt, new(big.Int).Abs(bst))
+					for i := int64(0); i < cnt.Int64(); i++ {
+						x := new(big.Int).Add(bs, new(big.Int).Mul(big.NewInt(i), bst))
+						want = append(want, int(x.Int64()))
 					}
 				}
 				if step < 0 {
@@ -608,7 +658,7 @@ func main() {
 		Rule: "a case is one seeded history of up to 50 operations over a pool of up to 6 long-lived SortedInts values with spare capacity 0/1/2/7/40 (whole sortints API, aliased operands allowed), or (1 run in 8) one ints.Sort call on a slice shaped to reach the insertion-sort, quicksort and heapsort branches (length <= 5000). " +
 			"After every operation the result must be strictly increasing and equal the map model, arguments bit-identical, every other pool member and its spare capacity untouched. Non-trivial = at least 3 operations including a mutation (or a sort of more than 12 elements); distinct = distinct fingerprints of the observed results.",
 		Assumptions: []string{
-			"values are within +-1e6 (one run in five: taken from a list of extreme ints incl. MinInt/MaxInt) and set sizes are small; Range uses ends within +-60 and steps within +-5",
+			"values are within +-1e6 (one run in five: taken from a list of extreme ints incl. MinInt/MaxInt) and set sizes are small; Range uses ends within +-60 and steps within +-5, and in one Range call in five ends at the limits of int (MaxInt-8..MaxInt, MinInt..MinInt+8, around MaxInt/2 and 0) with steps from 1 to MaxInt and MinInt; ranges of more than 2000 elements are not asked for",
 			"Complement is called with n >= 0",
 			"no fault or schedule exists in this code: the simulator contributes seeded histories over long-lived values, the lock-step model, minimisation and replay",
 		},
